@@ -234,10 +234,12 @@ theorem rhTail_sameCL (s : Streams) (k : Nat) (h : HeadersIn) (i : Bool) : SameC
   all_goals subst hr
   all_goals first
     | exact SameCL.refl _
+    | exact (((sameCL_modStream s k (fun st => { st with pendingRecv := st.pendingRecv ++ [_] }) (fun _ => ⟨rfl, rfl⟩)).trans
+        (sameCL_mw_notifyRecv _ k)).trans (sameCL_notifyPushIfRecvEnded _ k)).trans (sameCL_qPush _ _ _)
     | exact ((sameCL_modStream s k (fun st => { st with pendingRecv := st.pendingRecv ++ [_] }) (fun _ => ⟨rfl, rfl⟩)).trans
-        (sameCL_mw_notifyRecv _ _)).trans (sameCL_qPush _ _ _)
+        (sameCL_mw_notifyRecv _ k)).trans (sameCL_notifyPushIfRecvEnded _ k)
     | exact (sameCL_modStream s k (fun st => { st with pendingRecv := st.pendingRecv ++ [_] }) (fun _ => ⟨rfl, rfl⟩)).trans
-        (sameCL_mw_notifyRecv _ _)
+        (sameCL_mw_notifyRecv _ k)
 
 /-- `content-length` as `recv_headers` reads it: all values through `parse_u64`, which must agree -/
 def headCl (h : HeadersIn) : Option (Option Nat) :=
